@@ -239,7 +239,8 @@ def bounds(tier, seed):
             'b_corners': 'all ordered pairs of formats n_word in %s, n_frac in {-1,0,1,mid,n-1,n,n+1} with result word<=53 x {lo,hi,interior}^2 x 3 ops'
                          % ([1, 2, 3, 5, 8, 13, 16, 21, 26] if tier == 'quick' else '1..26'),
             'c_trees': 'closure of %d leaf formats x {lo,hi,+-1 code} under + - *: full to depth %d, then one-sided (new elements against leaves, '
-                       'both orders) to depth %d; dedup on (format, code); result word<=53' % ((5, 2, 2) if tier == 'quick' else (6, 2, 4)),
+                       'both orders) to depth %d (levels above 2: operands rebuilt from their canonical (format, code) state); dedup on (format, code); '
+                       'result word<=53' % ((5, 2, 2) if tier == 'quick' else (6, 2, 4)),
             'seed': seed}
 
 
@@ -260,9 +261,9 @@ def shards(tier, seed):
         for j in range(32):
             out.append({'part': 'T', 'nfmt': 6, 'depth': 2, 'slice': [j, 32], 'onesided_from': 99})
         for j in range(64):
-            out.append({'part': 'T', 'nfmt': 6, 'depth': 3, 'slice': [j, 64], 'onesided_from': 3})
+            out.append({'part': 'T', 'nfmt': 6, 'depth': 3, 'slice': [j, 64], 'onesided_from': 3, 'canonical': True})
         for j in range(128):
-            out.append({'part': 'T', 'nfmt': 4, 'depth': 4, 'slice': [j, 128], 'onesided_from': 3})
+            out.append({'part': 'T', 'nfmt': 4, 'depth': 4, 'slice': [j, 128], 'onesided_from': 3, 'canonical': True})
     return out
 
 
@@ -308,11 +309,81 @@ def run_shard(sh):
     else:
         # size of the last level is only known by building it; slice j of n by index
         j, n = sh['slice']
-        tot = tree_size(sh['nfmt'], sh['depth'], sh['onesided_from'])
-        lo = tot * j // n
-        hi = tot * (j + 1) // n
-        tree_closure(acc, sh['nfmt'], sh['depth'], lo, hi, sh['onesided_from'])
+        if sh.get('canonical'):
+            tree_canonical(acc, sh['nfmt'], sh['depth'], j, n, sh['onesided_from'])
+        else:
+            tot = tree_size(sh['nfmt'], sh['depth'], sh['onesided_from'])
+            lo = tot * j // n
+            hi = tot * (j + 1) // n
+            tree_closure(acc, sh['nfmt'], sh['depth'], lo, hi, sh['onesided_from'])
     return acc
+
+
+def model_last_level(nfmt, depth, onesided_from):
+    """operand combinations of the last level, computed on the model alone: list of ((fmt_a, code_a), (fmt_b, code_b))"""
+    S = set(leaves(nfmt))
+    base = set(S)
+    level = set(S)
+    combos = []
+    for d in range(1, depth + 1):
+        if d >= onesided_from:
+            left, right = sorted(level), sorted(base)
+            combos = [(a, b) for a in left for b in right] + [(b, a) for a in left for b in right]
+        else:
+            keys = sorted(S)
+            combos = [(a, b) for a in keys for b in keys]
+        if d == depth:
+            break
+        new = set()
+        for ka, kb in combos:
+            for op in OPS:
+                fz = mul_fmt(ka[0], kb[0]) if op == '*' else add_fmt(ka[0], kb[0])
+                if fz.n_word > 53:
+                    continue
+                r = ka[1] * kb[1] if op == '*' else expected(op, ka[0], kb[0], ka[1], kb[1])[1]
+                if op == '-' and not fz.signed and r < 0:
+                    continue
+                if (fz, r) not in S:
+                    new.add((fz, r))
+        S |= new
+        level = new
+    return combos
+
+
+def tree_canonical(acc, nfmt, depth, j, n, onesided_from):
+    """last level of the closure with operands rebuilt from their canonical state (format, code): every element of the closure
+    is an object with default configuration, no flag and that code, so an object built raw from (format, code) has the same futures
+    under + - * (they read format, codes and configuration only).  Levels <= 2 are also explored on live derived objects."""
+    combos = model_last_level(nfmt, depth, onesided_from)
+    lo, hi = len(combos) * j // n, len(combos) * (j + 1) // n
+    for (ka, kb) in combos[lo:hi]:
+        a = Fxp(ka[1], ka[0].signed, ka[0].n_word, ka[0].n_frac, raw=True)
+        b = Fxp(kb[1], kb[0].signed, kb[0].n_word, kb[0].n_frac, raw=True)
+        for op in OPS:
+            fz = mul_fmt(ka[0], kb[0]) if op == '*' else add_fmt(ka[0], kb[0])
+            if fz.n_word > 53:
+                acc.outcome('pruned_word>53')
+                continue
+            r = ka[1] * kb[1] if op == '*' else expected(op, ka[0], kb[0], ka[1], kb[1])[1]
+            case = {'part': 'T', 'a': [list(ka[0]), ka[1]], 'b': [list(kb[0]), kb[1]], 'op': op, 'depth': depth}
+            acc.evaluations += 1
+            acc.transitions += 3
+            acc.nontrivial += 1
+            neg_u = (op == '-' and not fz.signed and r < 0)
+            try:
+                z = apply(op, 'operator', a, b)
+                gc, gf, fl = codes(z)[0], fmt_of(z), flags(z)
+            except Exception as e:
+                acc.violation('exception', case, 'tree: (%s code %d) %s (%s code %d) raised %r' % (ka[0].dtype, ka[1], op, kb[0].dtype, kb[1], e),
+                              {'part': 'T', 'op': op})
+                continue
+            er = 0 if neg_u else r
+            if gf != fz or gc != er or fl != ((False, True, True) if neg_u else (False, False, False)):
+                acc.violation('tree', case, 'tree depth %d: (%s code %d) %s (%s code %d) = %s code %d flags %s, expected %s code %d'
+                              % (depth, ka[0].dtype, ka[1], op, kb[0].dtype, kb[1], gf.dtype, gc, fl, fz.dtype, er), {'part': 'T', 'op': op})
+                continue
+            acc.states.add((fz, er))
+            acc.outcome('tree_new')
 
 
 _TS = {}
